@@ -27,7 +27,7 @@ func init() {
 				Rule: "case = history of Add/Pop/Remove/Set/Reorder/Clear/NewWithData with an update callback installed (distinct elements = unique tags, keys with many ties so that equal-priority elements meet), removals chosen both by raw offset and by the reported position of a chosen held element, followed by a drain with positions re-checked after every Pop; " +
 					"plus Set of every length 0..64 in ascending/descending/constant order (placement reports without any swap) and the LRU store's own usage pattern driven through cache.Cache with the key->offset index cross-checked against the heap by the cache hook after every call. " +
 					"After EVERY op: Peek(last reported position) == element for every tracked held element; Add's return == last reported position. distinct = hash of the op list; non-trivial = at least one Remove through a reported position at an interior offset",
-				Required:     []string{"histories", "position_checks", "removes_by_reported_position", "interior_removes", "reorders", "set_placement_sweeps", "lru_consumer_steps", "large_queue_histories"},
+				Required:     []string{"histories", "position_checks", "removes_by_reported_position", "interior_removes", "reorders", "set_placement_sweeps", "lru_consumer_steps", "large_queue_histories", "big_element_histories"},
 				Assumptions:  []string{"reports about elements that have already left the queue are ignored (the statement is about held elements)", "elements placed by NewWithData are not tracked (they did not enter through Add or Set)"},
 				CoverPkgs:    []string{"github.com/creachadair/mds/heapq", "github.com/creachadair/mds/cache"},
 				CoverAnchors: []string{"heapq/heapq.go:swap", "heapq/heapq.go:Add", "heapq/heapq.go:Set", "heapq/heapq.go:pop", "heapq/heapq.go:pushUp", "heapq/heapq.go:pushDown", "heapq/heapq.go:Update", "heapq/heapq.go:Remove", "heapq/heapq.go:Reorder", "cache/lru.go"},
@@ -139,6 +139,22 @@ func runC06(c *fw.Ctx) {
 		c.Max("max:queue_len", int64(st.maxLen))
 	}
 	idx += nl
+	// elements larger than 128 bytes, update callback installed
+	for k := 0; k < c.Pick(40, 600); k++ {
+		if !c.Begin(idx + k) {
+			continue
+		}
+		ok, pv, stack := fw.Try(func() {
+			if pr := heapBigRun(c.Rng(), false, c.Step); pr != "" {
+				c.Fail(map[string]any{"element_type": "216-byte struct", "update_callback": true}, "%s", pr)
+			}
+		})
+		if !ok {
+			c.FailKind("panic", map[string]any{"element_type": "216-byte struct"}, "panic: %v\n%s", pv, stack)
+		}
+		c.Add("big_element_histories", 1)
+	}
+	idx += 600
 
 	// The consumer: cache's LRU store keeps key -> heap offset only through
 	// the callback. Drive it sequentially; the hook cross-checks index and heap.
